@@ -49,7 +49,7 @@ std::string corruptLine(Rng& r, const std::string& in, std::string& kind) {
 
 void runC17(const Scenario& sc, vf::Result& res) {
     sess::History h;
-    sess::runSession(sc, h, res);
+    harness_session_run(&sc, &h, &res);
     uci::Model m;
     uci::buildModel(h, m);
     uci::checkContract(h, m, res);   // counting rules for the commands as they were actually delivered
